@@ -2,7 +2,7 @@
 From Coq.Strings Require Import Byte String.
 From Coq Require Import List NArith Bool Arith.
 Import ListNotations.
-From V Require Import lib.Bytes model.Rpc spec.RpcWire.
+From V Require Import lib.Bytes model.Rpc spec.RpcWire spec.RpcCall.
 Require Extraction.
 Require Import ExtrOcamlBasic.
 
@@ -53,6 +53,7 @@ Definition dec_action (tag : byte) (a b : nat) : option xaction :=
   else if Byte.eqb tag x44 then Some (XDeliver (a, b))       (* D *)
   else if Byte.eqb tag x48 then Some (XHFail a b)            (* H *)
   else if Byte.eqb tag x42 then Some (XBFail a b)            (* B *)
+  else if Byte.eqb tag x45 then Some (XA AEof)               (* E *)
   else None.
 Fixpoint dec_trace (fuel : nat) (s : bytes) : option (list xaction) :=
   match fuel with
@@ -113,7 +114,7 @@ Definition conn (progb trb : bytes) : list bytes :=
       (match stuck with None => bs "ok" | Some i => bs "stuck " ++ dn i end)
       :: dn (length (pending s))
       :: (match lock s with None => bs "free" | Some t => dn t end)
-      :: (match run s with None => bs "idle" | Some _ => bs "sending" end)
+      :: (match run s with None => if closed s then bs "ended" else bs "idle" | Some _ => bs "sending" end)
       :: dn (length (sent s))
       :: map (fun t => thread_code (threads s t)) (seq 0 (length prog))
   end.
@@ -149,6 +150,38 @@ Definition writes (trb : bytes) (payloads : list bytes) : list bytes :=
       :: map (fun t => ret_code (t_ret (threads s t))) (seq 0 (length prog))
   end.
 
+
+(* ---------- the specification of a call's outcome (spec/RpcCall.v) on an observed call ---------- *)
+(* id: 2 bytes; flags: three '0'/'1' bytes (context cancelled, a connection Write failed, the stream ended);
+   outcome: 'g' id(2) value(2) | 'c' | 'w' | 'e' | anything else; reads: 4 bytes (id, value) per response *)
+Fixpoint dec_reads (fuel : nat) (s : bytes) : list (nat * nat) :=
+  match fuel with
+  | O => []
+  | S f => match s with
+           | a1 :: a0 :: b1 :: b0 :: r => (n2 a1 a0, n2 b1 b0) :: dec_reads f r
+           | _ => []
+           end
+  end.
+Definition flag (n : nat) (s : bytes) : bool := Byte.eqb (nth n s x30) x31.
+Definition dec_outcome (s : bytes) : outcome :=
+  match s with
+  | tag :: r =>
+      if Byte.eqb tag x67 then
+        match r with a1 :: a0 :: b1 :: b0 :: _ => OGot (n2 a1 a0) (n2 b1 b0) | _ => OOther end
+      else if Byte.eqb tag x63 then OCancelled
+      else if Byte.eqb tag x77 then OWriteError
+      else if Byte.eqb tag x65 then OClosed
+      else OOther
+  | [] => OOther
+  end.
+Definition callspec (a : list bytes) : list bytes :=
+  let idb := arg 0 a in
+  let fl := arg 1 a in
+  let rd := arg 3 a in
+  [b2 (call_ok (mkFacts (n2 (nth 0 idb x00) (nth 1 idb x00)) (dec_reads (S (length rd)) rd)
+                        (flag 0 fl) (flag 1 fl) (flag 2 fl))
+               (dec_outcome (arg 2 a)))].
+
 (* length of the remaining input after each successive frame (space separated decimals) *)
 Fixpoint rests (fuel : nat) (s : bytes) : bytes :=
   match fuel with
@@ -175,6 +208,7 @@ Definition dispatch (f : bytes) (a : list bytes) : list bytes :=
   else if is f "trim" then [trim (arg 0 a)]
   else if is f "conn" then conn (arg 0 a) (arg 1 a)
   else if is f "writes" then writes (arg 0 a) (tl a)
+  else if is f "callspec" then callspec a
   else if is f "wirespec" then
     (* broken flag ("1"/"0"), the bytes on the connection, the delivered payloads *)
     [b2 (wire_spec (tl (tl a)) (is (arg 0 a) "1") (arg 1 a))]
